@@ -87,6 +87,36 @@ def random_behaviours(seed: int, n: int) -> List[Dict[str, Any]]:
     return out
 
 
+def long_behaviours(seed: int, n: int) -> List[Dict[str, Any]]:
+    """long horizons: hundreds of resumptions inside ONE budget (the pce500 binary calls run_for(u64::MAX)), many zero-cycle sleeps,
+    the same scripts also cut into small budgets - anything that accumulates per call of run_for or per resumption shows here"""
+    rnd = random.Random(seed)
+    out = []
+    for k in range(n):
+        rounds = rnd.choice([70, 100, 140, 200])
+        a, b = rnd.choice([(0, 3), (0, 1), (0, 0), (1, 0), (0, 5), (2, 0)])
+        main = []
+        for i in range(rounds):
+            main += [["S", a], ["S", b]]
+            if rnd.random() < 0.05:
+                main.append(["E"])
+        scripts = [main]
+        if rnd.random() < 0.7:
+            scripts.append([["S", rnd.choice([1, 2, 3])] for _ in range(rnd.choice([50, 150, 300]))])
+        if rnd.random() < 0.3:
+            scripts.append([["S", 0] for _ in range(rnd.choice([30, 90]))] + [["E"]])
+        total = 4 * rounds + 50
+        shape = k % 3
+        if shape == 0:
+            budgets = [1_000_000]
+        elif shape == 1:
+            budgets = [rnd.choice([7, 5, 11])] * (total // 5 + 2)
+        else:
+            budgets = [rnd.choice([1, 3, 50, 400]) for _ in range(40)] + [1_000_000]
+        out.append({"scripts": scripts, "budgets": budgets})
+    return out
+
+
 # ------------------------------------------------------------------ CPU equivalence
 
 def gen_program(rnd: random.Random) -> Dict[str, Any]:
@@ -295,6 +325,7 @@ def run(cr: CheckRun) -> None:
     campaign(cr, sitems, "simulate-4tasks")
     rnd = random_behaviours(cr.seed, 1500 if quick else 20000)
     campaign(cr, rnd, "random")
+    campaign(cr, long_behaviours(cr.seed + 18, 32 if quick else 600), "long-horizon")
     cpu_equivalence(cr, 120 if quick else 1500)
     device_tasks(cr, 400 if quick else 6000)
     cr.cov["distinct_nontrivial"] = len({json.dumps(b, sort_keys=True) for b in items + sitems + rnd})
